@@ -66,7 +66,7 @@ class Tree(object):
             shutil.copy(src, os.path.join(d, fn))
         return d
 
-    def _aldor(self, args, d, timeout=120):
+    def _aldor(self, args, d, timeout=60):
         self.ncmd += 1
         rc, out, err, to = vlib.aldor(self.b, self.dargs + [qopt(self.level)] + list(args), d, timeout=timeout)
         return {"rc": rc, "out": out.decode(errors="replace"), "err": err.decode(errors="replace"), "timeout": to,
@@ -542,6 +542,22 @@ def first_diff(a, b, ctx=3):
         i = min(len(la), len(lb))
         return {"at": i, "direct": la[i - ctx:i + ctx], "saved": lb[i - ctx:i + ctx]}
     return None
+
+
+def diff_class(a, b):
+    """A signature of how two token texts (one token per line) differ, used in finding keys."""
+    la, lb = a.split("\n"), b.split("\n")
+    if la == lb:
+        return "same-tokens-different-layout"
+    if len(la) != len(lb):
+        return "token-count-differs"
+    num = re.compile(r"^-?([0-9]+)L?$")
+    for x, y in zip(la, lb):
+        if x != y:
+            m = num.match(x)
+            if not (m and int(m.group(1)) >= 2**62 and num.match(y)):
+                return "tokens-differ"
+    return "only-huge-sint-literals-differ"
 
 
 # --------------------------------------------------------------------------------------------------------------
